@@ -1,5 +1,8 @@
 # C13 — concurrent file reads never exceed the configured limits.
-from lib import vf
+import os, subprocess, time
+from lib import vf, srv
+
+EXTRA_BINS = ("dcat", "dtail")
 
 ID = "C13"
 PROP_FILE = "Props/C13.v"
@@ -46,12 +49,64 @@ def generate(rng, tier):
         cap = rng.choice([1, 1, 2, 3])
         nr = rng.randint(cap + 1, cap + 4)
         cases.append({"cap": cap, "n": nr, "events": gen_history(rng, cap, nr)})
+    # black box: the real clients in serverless mode with different cat and tail limits; the files of the session that are
+    # open at the same time are sampled from /proc/<pid>/fd
+    cases.append({"bb": "dcat", "cats": 1, "tails": 4, "files": 4})
+    cases.append({"bb": "dcat", "cats": 2, "tails": 1, "files": 5})
+    if tier != "quick":
+        cases.append({"bb": "dcat", "cats": 3, "tails": 7, "files": 7})
     return cases
 
 
+def _blackbox(c, k):
+    env = srv.Env(os.path.join(vf.scratch(), "c13bb%d" % k))
+    cfg = env.write_cfg("bb.json", server={"MaxConcurrentCats": c["cats"], "MaxConcurrentTails": c["tails"]})
+    paths = []
+    line = ("x" * 199 + "\n").encode()
+    for j in range(c["files"]):
+        p = os.path.realpath(os.path.join(env.dir, "big%d.log" % j))
+        with open(p, "wb") as f:
+            f.write(line * 60000)          # 12 MB
+        paths.append(p)
+    cmd = [os.path.join(srv.BIN, c["bb"]), "--cfg", cfg, "--plain", "--files", ",".join(paths)]
+    p = subprocess.Popen(cmd, stdin=subprocess.DEVNULL, stdout=subprocess.DEVNULL, stderr=subprocess.DEVNULL, env=env.client_env(), cwd=env.dir)
+    most, seen, samples = 0, set(), 0
+    t0 = time.time()
+    while p.poll() is None and time.time() - t0 < 120:
+        try:
+            fds = os.listdir("/proc/%d/fd" % p.pid)
+        except OSError:
+            break
+        cur = set()
+        for fd in fds:
+            try:
+                l = os.readlink("/proc/%d/fd/%s" % (p.pid, fd))
+            except OSError:
+                continue
+            if l in paths:
+                cur.add(l)
+        samples += 1
+        seen |= cur
+        most = max(most, len(cur))
+        time.sleep(0.002)
+    if p.poll() is None:
+        p.kill()
+    rc = p.wait()
+    for q in paths:
+        os.remove(q)
+    return {"rc": rc, "max_open": most, "files_seen_open": len(seen), "samples": samples}
+
+
 def run_impl(cases, tier):
-    res, infos = vf.harness_parallel("limiter", cases, shards=min(vf.NCPU, max(1, len(cases) // 4)))
-    return res
+    hist = [i for i, c in enumerate(cases) if "bb" not in c]
+    res, infos = vf.harness_parallel("limiter", [cases[i] for i in hist], shards=min(vf.NCPU, max(1, len(hist) // 4)))
+    obs = [None] * len(cases)
+    for i, r in zip(hist, res):
+        obs[i] = r
+    for k, c in enumerate(cases):
+        if "bb" in c:
+            obs[k] = _blackbox(c, k)
+    return obs
 
 
 def judge(cases, obs, tier):
@@ -60,6 +115,13 @@ def judge(cases, obs, tier):
     for i, (c, o) in enumerate(zip(cases, obs)):
         if o is None or "panic" in o or "error" in o:
             oracle[i] = "implementation failed: %s" % (o,)
+            continue
+        if "bb" in c:
+            if o["rc"] != 0:
+                oracle[i] = "serverless %s ended with status %s" % (c["bb"], o["rc"])
+            elif o["max_open"] > c["cats"]:
+                oracle[i] = "serverless %s over %d files: %d files were open at once under MaxConcurrentCats=%d (MaxConcurrentTails=%d)" % (
+                    c["bb"], c["files"], o["max_open"], c["cats"], c["tails"])
             continue
         live = []
         for k, (ev, ob) in enumerate(zip(c["events"], o["trace"])):
@@ -96,9 +158,13 @@ def classify(case, ob, detail):
 
 
 def nontrivial(c):
+    if "bb" in c:
+        return True
     return c["n"] > c["cap"] and any(e[0] == "stop" for e in c["events"])
 
 
 def sample(c, o):
+    if "bb" in c:
+        return {"black_box": c, "observed": o}
     return {"cap": c["cap"], "readers": c["n"], "events": [" ".join(e) for e in c["events"]],
             "observed": [(t["tokens"], t["open"]) for t in (o or {}).get("trace", [])]}
